@@ -42,9 +42,15 @@ OnE2E(e) ==
                 ELSE IF e.dev_token # e.reg_token \/ e.dev_key # e.reg_key THEN "the device does not hold the credentials registered for the udpid of its id"
                 ELSE IF ~e.online THEN "the authenticated device was not refreshed"
                 ELSE "ok"
+(* auto-connect while the cloud fails (API error code, HTTP failure, exhausted timeouts) at a chosen step: the failure surfaces as a cloud error *)
+OnE2EFault(e) ==
+  /\ Stay /\ Keep
+  /\ verdict' = IF e.exc = "CloudError" THEN "ok"
+                ELSE IF e.exc = "" THEN "a cloud failure (" \o e.fault \o " at the " \o e.step \o " step) during auto-connect was swallowed: no cloud error surfaced"
+                ELSE "a cloud failure (" \o e.fault \o " at the " \o e.step \o " step) during auto-connect surfaced as " \o e.exc \o " instead of a cloud error"
 TNext == /\ l <= Len(Traces[tid].events) /\ verdict = "ok"
          /\ LET e == Traces[tid].events[l] IN
-            CASE e.ev = "call" -> OnCall(e) [] e.ev = "req" -> OnReq(e) [] e.ev = "ret" -> OnRet(e) [] e.ev = "e2e" -> OnE2E(e)
+            CASE e.ev = "call" -> OnCall(e) [] e.ev = "req" -> OnReq(e) [] e.ev = "ret" -> OnRet(e) [] e.ev = "e2e" -> OnE2E(e) [] e.ev = "e2ef" -> OnE2EFault(e)
          /\ l' = l + 1 /\ UNCHANGED tid
 Done == l = Len(Traces[tid].events) + 1 \/ verdict # "ok"
 Judge == Done => PrintT(<<"DONE", tid, IF verdict = "ok" THEN "ok" ELSE verdict \o " @event " \o ToString(l - 1)>>)
